@@ -76,6 +76,7 @@ RULES = {
     "BINDERS": layer.rule_binders,
     "FWDTHREAD": forwarding.rule_fwdthread,
     "FWDHELPERS": forwarding.rule_fwdhelpers,
+    "PATHIDX": forwarding.rule_pathidx,
     "FWDPRESENT": provenance.rule_fwdpresent,
     "FWDWALK": provenance.rule_fwdwalk,
     "ANNOTONLY": provenance.rule_annotonly,
